@@ -20,6 +20,10 @@ CLAIMED = {
             "runtime monitor: real Scheduler.Solve/Truncate/Create on weighted pools; opener pod of each new NodeClaim judged (conservatively) infeasible on every heavier pool; instance types captured at the API boundary priced against the scheduler's pre-truncation options; race detector pass over parallel template evaluation",
             "2-5 weighted NodePools (ties, nil weights) x catalogs with price ties x parallelism 1-16 x lowered MaxInstanceTypes: the pod that opens each NodeClaim must be infeasible on every strictly heavier ready pool under a deliberately conservative single-pod feasibility oracle, and no sent instance type may be dearer (cheapest compatible available offering) than an option that truncation left out. Data races between Karpenter code paths during parallel evaluation count as violations. Held-on-observed.",
             "Weight oracle skips pools with limits, minValues, custom-label requirements or a reserved-offering deferral (counted); feasibility uses the constraints Karpenter evaluates for the placed copy. Trusts oracle and fake API."),
+    "C06": ("exploration", "DESIGN.md §3 C06",
+            "runtime monitor: real disruption controller (all methods, validation delay on the virtual clock) on clusters grown through the real pipeline; every Underutilized/Empty command entering the orchestration queue judged by the admissibility oracle and an independent price oracle (provider ground-truth prices, worst admitted launch)",
+            "Clusters with over-provisioned, underutilised and empty nodes (hostile provider launch choices, price ties, spot/on-demand inversions, unavailable and capacity-overridden offerings, frozen pools, SpotToSpot gate both ways) are reconciled by the real disruption controller; each accepted consolidation command must re-home every reschedulable candidate pod admissibly on initialized non-candidate nodes or one replacement, every replacement option must be strictly cheaper in its worst admitted launch, and Empty commands may only drop pods with non-positive eviction cost. Held-on-observed; two recorded findings.",
+            "No world churn during the 15 s validation wait (the command's own simulation results are judged); no reserved offerings, PDBs or do-not-disrupt in these worlds (C07 covers blockers); trusts oracle, fake API, provider ground truth."),
     "C13": ("exploration", "DESIGN.md §3 C13",
             "runtime monitor: NodeClaim objects captured at the API boundary (interceptor) compared key-by-key over a probe universe with the scheduler's in-memory requirements; NodePools pre-filtered by the real in-process CRD schema + CEL + RuntimeValidate pipeline; panics recovered per Create",
             "NodePool requirements are redrawn over all eight operators with several requirements per key (well-known enumerated / integer and custom keys, incl. Lt 0, Gt+NotIn, Gte+Lte), kept only if a real API server would accept them, and pushed through the real Solve → Truncate → Provisioner.Create path; for every created NodeClaim the serialized requirements, instance-type list, minValues floors, resource requests, labels, taints and hash annotations are judged against the in-memory decision and the template. Held-on-observed; two genuine defects found and fixed.",
